@@ -1,6 +1,6 @@
 check("C13", "model_checking",
       "TLC enumerates SyltExpr's universes (all depth-2 operator/unary/postfix shapes over distinct leaf names, the depth-3 shapes around postfix forms (a unary operator over a call / index / field access whose base is a composite, parenthesised expression, alone and as either operand of every binary operator; postfix chains on composite bases), all 13^3 unparenthesised "
-      "three-operator chains, all depth-2 well-typed int/bool trees with their values), checks at spec level that the printing rules and the "
+      "three-operator chains, the same chains over literal leaves written over several lines inside parentheses (a line break or a comment before the 2nd / 3rd operator), long chains of 5-10 operands of one operator and of two alternating operators (left associativity at every length), unary operators before prime calls, all depth-2 well-typed int/bool trees with their values), checks at spec level that the printing rules and the "
       "operator table agree with a reference precedence-climbing parser, and every case is replayed: the real parser's public tree (spans and "
       "parenthesis nodes dropped) for the minimal-parenthesis and the fully parenthesised text must equal the specified tree; typed cases are "
       "compiled and run and must print the specified value. Bounded-exhaustive (depth 2, full operator-pair matrix on both sides).",
